@@ -73,7 +73,9 @@ impl BarState {
 
     pub(crate) fn reset(&mut self, now: Instant, mode: Reset) {
         // Always reset the estimator; this is the only reset that will occur if mode is
-        // `Reset::Eta`.
+        // `Reset::Eta`. Progress that was made but not yet recorded before the reset must not be
+        // counted in the first sample after it.
+        self.state.est.prev_steps = self.state.pos.pos.load(Ordering::Relaxed);
         self.state.est.reset(now);
 
         if let Reset::Elapsed | Reset::All = mode {
